@@ -251,6 +251,9 @@ func SliceLiteral(v ssa.Value) ([]ssa.Value, bool) {
 // termKey gives a canonical structural key for an opaque term: equal keys ⇒ equal values.
 func (ff *FuncFacts) termKey(v ssa.Value) string { return ff.tkey(v, 0) }
 
+// TermKey exposes the canonical structural key (equal keys ⇒ equal values).
+func (ff *FuncFacts) TermKey(v ssa.Value) string { return ff.tkey(v, 0) }
+
 func (ff *FuncFacts) tkey(v ssa.Value, depth int) string {
 	if v == nil {
 		return "nil"
